@@ -234,3 +234,47 @@ v('c13-initial', ['C13'], AUF, """            num_final_states,
             states: state_array.into(),
         })""", 'C13.R4/build')
 v('c13-transition-target', ['C13'], AUF, "        let j = self.get_state_id(next);\n        self.states[i].add_transition(set, j);", "        let j = self.get_state_id(next);\n        self.states[i].add_transition(set, i);", 'C13.R4/add_transition')
+
+# ---- C19
+BQF = 'src/bfs_queues.rs'
+v('c19-bound-gt', ['C19'], RX, "                if state_count == max_states {\n                    return None;", "                if state_count > max_states {\n                    return None;", 'C19.R1')
+v('c19-skip-class', ['C19'], RX, "            for cid in r.class_ids() {\n                let d = self.manager.class_derivative_unchecked(r, cid);", "            for cid in r.class_ids().skip(1) {\n                let d = self.manager.class_derivative_unchecked(r, cid);", 'C19.R2')
+v('c19-push-always', ['C19'], BQF, """        if self.set.insert(element.clone()) {
+            self.queue.push_back(element);
+            true
+        } else {
+            false
+        }""", """        if self.set.insert(element.clone()) {
+            self.queue.push_back(element);
+            true
+        } else {
+            self.queue.push_back(element);
+            false
+        }""", 'C19.R3')
+v('c19-compile-bound', ['C19'], RX, "self.compile_with_bound(e, usize::MAX).unwrap()", "self.compile_with_bound(e, u32::MAX as usize).unwrap()", 'C19.R4/compile')
+v('c19-count-twice', ['C19'], RX, "                state_count += 1;\n                for set in e.char_ranges() {", "                state_count += 2;\n                for set in e.char_ranges() {", 'C19.R1')
+v('c19-zero-bound', ['C19'], RX, "        if max_states == 0 {\n            None", "        if max_states == 1 {\n            None", 'C19.R1')
+v('c19-pop-back', ['C19'], BQF, "self.queue.pop_front()", "self.queue.pop_back()", 'C19.R3/BfsQueue::pop')
+v('c19-deriv-of-other', ['C19'], RX, "                let d = self.manager.class_derivative_unchecked(r, cid);\n                self.queue.push(d);\n            }\n            Some(r)", "                let d = self.manager.class_derivative_unchecked(r, cid);\n                self.queue.push(r);\n            }\n            Some(r)", 'C19.R2')
+
+# ---- C02
+v('c02-drop-complement-edge', ['C02'], RX, """                if !e.empty_complement() {
+                    let d = self.class_derivative_unchecked(e, ClassId::Complement);
+                    queue.push(d);
+                    builder.set_default_successor(&e.expr, &d.expr);
+                }
+                if e.nullable {
+                    builder.mark_final(&e.expr);""", """                if e.nullable {
+                    builder.mark_final(&e.expr);""", 'C02.R2')
+v('c02-final-of-successor', ['C02'], RX, """                    builder.add_transition(&e.expr, set, &d.expr);
+                }""", """                    builder.add_transition(&e.expr, set, &d.expr);
+                    if d.nullable {
+                        builder.mark_final(&e.expr);
+                    }
+                }""", 'C02.R')
+v('c02-edge-swapped', ['C02'], RX, "builder.add_transition(&e.expr, set, &d.expr);", "builder.add_transition(&d.expr, set, &e.expr);", 'C02.R1')
+v('c02-final-negated', ['C02'], RX, "                if e.nullable {\n                    builder.mark_final(&e.expr);", "                if !e.nullable {\n                    builder.mark_final(&e.expr);", 'C02.R3')
+v('c02-no-push', ['C02'], RX, "                    let d = self.set_derivative_unchecked(e, set);\n                    queue.push(d);", "                    let d = self.set_derivative_unchecked(e, set);", 'C02.R1')
+v('c02-class-next-swap', ['C02'], AUF, "            ClassId::Interval(i) => s.successor[i],\n            ClassId::Complement => s.default_successor.unwrap(),\n        };\n        &self.states[i]", "            ClassId::Interval(i) => s.successor[s.successor.len() - 1 - i],\n            ClassId::Complement => s.default_successor.unwrap(),\n        };\n        &self.states[i]", 'C02.R6/class_next')
+v('c02-accepts-initial', ['C02'], AUF, "self.str_next(self.initial_state(), str).is_final", "self.str_next(&self.states[0], str).is_final", 'C02.R6/accepts')
+v('c02-next-class', ['C02'], AUF, "        let cid = s.classes.class_of_char(c);\n        self.class_next(s, cid)", "        let cid = self.initial_state().classes.class_of_char(c);\n        self.class_next(s, cid)", 'C02.R6/next')
